@@ -636,3 +636,96 @@ def mix_flavours(rng, prog, nbins=3):
         op["bin"] = b
         out.append(op)
     return out
+
+
+# ---------------------------------------------------------------- C19: link_to
+def link_programs(rng, flavour, n):
+    """targets of size 0 / small / > one 16 KiB read buffer in the caller's directory; one-shot links and linkers with
+    options, partial reads before commit, relative and absolute paths; reads by key and by address; then the target is
+    modified / emptied / removed / replaced and read again; addresses that already exist as regular content."""
+    for i in range(n):
+        prog, keys, sris = [], [], []
+        targets = {}
+        for t in ("t0", "t1", "t2"):
+            d = rand_bytes(rng, rng.choice([0, 1, 5, 40, 17000, 33000]))
+            targets[t] = d
+            prog.append({"op": "damage", "kind": "set", "loc": "e:" + t, "data": d.hex()})
+        h = 1
+        for _ in range(rng.randrange(2, 6)):
+            t = rng.choice(list(targets))
+            d = targets[t]
+            fl = pick_fl(rng, flavour)
+            key = rand_key(rng, 0.2) if rng.random() < 0.75 else None
+            algo = rng.choice(hashes.ALGOS)
+            r = rng.random()
+            if rng.random() < 0.25:
+                # the address already exists as regular content
+                prog.append({"op": "write_hash", "fl": pick_fl(rng, flavour), "data": d.hex(), "algo": "sha256" if r < 0.4 else algo})
+            if r < 0.4:
+                op = {"op": "link_to", "fl": fl, "target": t}
+                if key is not None: op["key"] = kx(key)
+                if rng.random() < 0.5: op["rel"] = True
+                prog.append(op)
+                sris.append(hashes.sri("sha256", d))
+            else:
+                op = {"op": "lopen", "fl": fl, "l": h, "target": t}
+                if key is not None: op["key"] = kx(key)
+                if rng.random() < 0.4: op["rel"] = True
+                if rng.random() < 0.3:
+                    op["plain"] = True; algo = "sha256"
+                else:
+                    op["algo"] = algo
+                    q = rng.random()
+                    if q < 0.3: op["size"] = len(d)
+                    elif q < 0.5: op["size"] = rng.choice([0, len(d) + 1, max(0, len(d) - 1), 8, 16384])
+                    q = rng.random()
+                    if q < 0.25: op["sri"] = hashes.sri(algo, d)
+                    elif q < 0.4: op["sri"] = hashes.sri(algo, d + b"x")
+                    elif q < 0.5: op["sri"] = hashes.sri(rng.choice(hashes.ALGOS), d)
+                    if rng.random() < 0.4: op["time"] = str(rng.choice([0, 7, 2**64 + 5]))
+                    if rng.random() < 0.3: op["meta"] = rand_meta(rng)
+                    if rng.random() < 0.2: op["raw"] = rand_bytes(rng, 3).hex()
+                prog.append(op)
+                for _ in range(rng.randrange(0, 4)):
+                    prog.append({"op": "lchunk", "l": h, "n": rng.choice([0, 1, 8, 100, 16384, 40000])})
+                prog.append({"op": "lcommit" if rng.random() < 0.85 else "ldrop", "l": h})
+                sris.append(hashes.sri(algo, d))
+                h += 1
+            if key is not None: keys.append(key)
+            if rng.random() < 0.6 and keys:
+                k = rng.choice(keys)
+                prog += [{"op": "read", "fl": pick_fl(rng, flavour), "key": kx(k)}, {"op": "metadata", "fl": pick_fl(rng, flavour), "key": kx(k)}]
+        def all_reads():
+            out = []
+            for k in sorted(set(keys)):
+                out += [{"op": "read", "fl": pick_fl(rng, flavour), "key": kx(k)}, {"op": "metadata", "fl": "sync", "key": kx(k)}]
+            for sr in sorted(set(sris)):
+                out += [{"op": "read_hash", "fl": pick_fl(rng, flavour), "sri": sr}, {"op": "exists", "fl": "sync", "sri": sr}]
+            if keys:
+                out.append({"op": "copy", "fl": pick_fl(rng, flavour), "by": "key", "checked": True, "key": kx(keys[0]), "to": "out1"})
+            out.append({"op": "list"})
+            return out
+        prog += all_reads()
+        prog.append({"op": "cmptree"})
+        # the targets change after linking: reads must fail, never return other bytes
+        for t in list(targets):
+            r = rng.random()
+            if r < 0.3:
+                prog.append({"op": "damage", "kind": "set", "loc": "e:" + t, "data": (targets[t] + b"!").hex() if rng.random() < 0.5 else rand_bytes(rng, len(targets[t])).hex()})
+            elif r < 0.5:
+                prog.append({"op": "damage", "kind": "del", "loc": "e:" + t})
+            elif r < 0.6:
+                prog.append({"op": "damage", "kind": "set", "loc": "e:" + t, "data": ""})
+        prog += all_reads()
+        # a removed target comes back under another name with identical bytes and is linked again: the entry must read
+        # back (a dangling link left by the first link must not be taken for existing content)
+        if rng.random() < 0.6:
+            t = rng.choice(list(targets))
+            k2 = rand_key(rng, 0.1)
+            prog += [{"op": "damage", "kind": "del", "loc": "e:" + t},
+                     {"op": "damage", "kind": "set", "loc": "e:again", "data": targets[t].hex()},
+                     {"op": "link_to", "fl": pick_fl(rng, flavour), "key": kx(k2), "target": "again"},
+                     {"op": "read", "fl": pick_fl(rng, flavour), "key": kx(k2)},
+                     {"op": "read_hash", "fl": pick_fl(rng, flavour), "sri": hashes.sri("sha256", targets[t])},
+                     {"op": "cmptree"}]
+        yield prog
